@@ -35,6 +35,13 @@ def run(ctx):
     ctx.guarded("R01.4", "fifo", lambda: fifo(ctx, "R01.4", "parsed_requests", {"push_back", "pop_front"}, floor=2))
     ctx.guarded("R01.5", "body", lambda: body(ctx))
     ctx.guarded("R01.6", "window", lambda: window(ctx))
+    ctx.rule("R01.7", "line ends are found with find(buffer[start..end], CRLF) = first occurrence, and the slices handed to the line parsers / the advance of the line start are exact (= C02 R02.5, C14 R14.1 find shape)")
+    from .c06 import _Remap
+    from . import c02, c14
+    ctx.guarded("R01.7", "lines", lambda: c02.lines(_Remap(ctx, "R01.7")))
+    ctx.guarded("R01.7", "find", lambda: c14.find_shape(_Remap(ctx, "R01.7")))
+    ctx.rule("R01.8", "a completed request is queued at once (RequestReady arm pushes onto parsed_requests), so requests preceding an error are still delivered")
+    ctx.guarded("R01.8", "queue-on-completion", lambda: queue_on_completion(ctx, "R01.8"))
 
 
 def empty_read(ctx):
@@ -53,11 +60,12 @@ def empty_read(ctx):
         if not rc:
             continue
         failed = any(t[0] == "discr" and is_call(t[1], "branch") and norm(look(t[1][2][0])) == norm(rc[0][4]) and c == ("eq", 1) for (t, c, _b) in lf.conds)
+        failed = failed or any(t[0] == "discr" and norm(look(t[1])) == norm(rc[0][4]) and (c == ("eq", 1) or (c[0] == "ne" and 0 in c[1])) for (t, c, _b) in lf.conds)
         if failed:
             n += 1
             eff = conn.self_effects(ctx, lf, allow=("recv_with_fds",))
             rk = ret_kind(lf)
-            ctx.ob("R01.1", "read_bytes|failed|no-effect", not eff and rk[0] == "prop", "failed receive: read_bytes returns the error without touching the connection (effects: %s)" % eff, fr.loc(lf.bb))
+            ctx.ob("R01.1", "read_bytes|failed|no-effect", not eff and rk is not None and rk[0] in ("prop", "Err"), "failed receive: read_bytes returns the error (not a made-up end index) without touching the connection (effects: %s, returns %s)" % (eff, rk[0] if rk else None), fr.loc(lf.bb))
     loopfn = conn.parse_loop_fn(ctx)
     fl, ll = leaves(ctx, loopfn)
     for lf in ll:
@@ -255,13 +263,25 @@ def window(ctx):
                     ok = True
     ctx.ob("R01.6", "window", ok, "new bytes are received into buffer[read_cursor..]", fn.loc(0))
     fr, lr = leaves(ctx, conn.READ_BYTES)
+    n_ok = 0
     for lf in lr:
         r = look(lf.ret())
+        rk = ret_kind(lf)
         if is_call(r, "ok_or") and is_call(look(r[2][0]), "checked_add"):
+            n_ok += 1
             ca = look(r[2][0])
             a, b = look(ca[2][0]), look(ca[2][1])
             okv = (self_field(b, "read_cursor") and a[0] == "field" and a[3] == "0") or (self_field(a, "read_cursor") and b[0] == "field" and b[3] == "0")
             ctx.ob("R01.6", "end=read+cursor", okv, "the end of valid data is bytes_read + read_cursor", fr.loc(lf.bb))
+        elif rk is not None and rk[0] == "Ok":
+            v = look(rk[1])
+            sm = None
+            from .util import as_sum
+            sm = as_sum(v)
+            okv = sm is not None and ((self_field(sm[1], "read_cursor") and look(sm[0])[0] == "field") or (self_field(sm[0], "read_cursor") and look(sm[1])[0] == "field"))
+            n_ok += 1 if okv else 0
+            ctx.ob("R01.6", "end=read+cursor|other-ok-return", okv, "every Ok value of read_bytes is bytes_read + read_cursor (found %s)" % term_s(v)[:80], fr.loc(lf.bb))
+    ctx.ob("R01.6", "end|floor", n_ok >= 1, "%d Ok return(s) of read_bytes carry bytes_read + read_cursor" % n_ok)
     loopfn = conn.parse_loop_fn(ctx)
     fl, ll = leaves(ctx, loopfn)
     okargs = True
@@ -273,3 +293,22 @@ def window(ctx):
                 end = look(e[4][2][2])
                 okargs = okargs and end[0] == "payload" and is_call(end[1], conn.READ_BYTES)
     ctx.ob("R01.6", "parsers-get-that-end", okargs and n >= 3, "every sub-parser is given the end computed by read_bytes (%d call paths)" % n, fl.loc(0))
+
+
+def queue_on_completion(ctx, rule):
+    facts = ctx.facts
+    loopfn = conn.parse_loop_fn(ctx)
+    fn, lv = leaves(ctx, loopfn)
+    d = {n: k for k, n in facts.variant_discr("connection::ConnectionState").items()}
+    n = 0
+    for lf in lv:
+        rr = False
+        for (t, c, _b) in lf.conds:
+            if t[0] == "discr" and any(isinstance(s, tuple) and s and s[0] == "field" and s[3] == "state" and s[2] == conn.HC for s in subterms(t)) and c == ("eq", d["RequestReady"]):
+                rr = True
+        if not rr:
+            continue
+        n += 1
+        pb = [e for e in lf.events if e[0] == "call" and "VecDeque" in e[3] and last_seg(e[3]) == "push_back" and self_field(e[4][2][0], "parsed_requests")]
+        ctx.ob(rule, "request-ready-pushes", len(pb) == 1, "the RequestReady arm pushes the completed request onto self.parsed_requests in the same iteration (pushes: %d)" % len(pb), fn.loc(lf.bb))
+    ctx.ob(rule, "floor", n >= 1, "%d RequestReady path(s) inspected" % n)
